@@ -4,8 +4,10 @@ import json, sys
 pid, wt, out = sys.argv[1], sys.argv[2], sys.argv[3]
 n = sys.argv[4] if len(sys.argv) > 4 else "2"
 r2 = len(sys.argv) > 5 and sys.argv[5] == "r2"
-KINDS = """ Make the changes of DIFFERENT kinds: (1) a one-token or one-line slip in a place the tests do not look at - the wrong variable of the same type, a flipped or off-by-one comparison, an inverted condition, two swapped arguments, an error check dropped or its polarity reversed, a wrong map/table used; (2) an ordering change - a statement moved across a lock boundary, before/after a store or downstream call, into/out of a loop, before/after a validity check; (3) a plausible 'improvement' - a cache, an early return, a fast path, batching, reuse of an object - that is wrong in a corner case. Spread them over different functions and mechanisms of the property.""" if r2 else ""
+r3 = len(sys.argv) > 5 and sys.argv[5] == "r3"
+KINDS = """ Make the changes of DIFFERENT kinds: (1) a one-token or one-line slip in a place the tests do not look at - the wrong variable of the same type, a flipped or off-by-one comparison, an inverted condition, two swapped arguments, an error check dropped or its polarity reversed, a wrong map/table used; (2) an ordering change - a statement moved across a lock boundary, before/after a store or downstream call, into/out of a loop, before/after a validity check; (3) a plausible 'improvement' - a cache, an early return, a fast path, batching, reuse of an object - that is wrong in a corner case. Spread them over different functions and mechanisms of the property.""" if r2 else (""" Make the changes of DIFFERENT kinds, chosen from: (a) error handling - an error that is logged but no longer returned, returned but wrapped into nil by a later assignment, handled on the wrong branch, or a retry that gives up silently; (b) concurrency - a lock taken later or released earlier, a read of shared state moved outside its lock, a channel send/receive or goroutine start moved across a state change, a check-then-act split; (c) state and cleanup - a table entry not removed / removed too early, a flag set on the wrong object or never reset, a counter updated on one path only, a resource released twice or not at all; (d) boundary and identity - an off-by-one or inclusive/exclusive boundary, the wrong one of two similar identifiers (source vs target, id vs name, task vs collection, begin vs end), a key built from the wrong components; (e) data flow - a value computed before instead of after a rewrite, a stale copy used after an update, a shared object mutated where a copy was needed, a default that masks a missing value. Prefer the less central functions of the listed mechanisms and the paths that only run on failure, restart, pause/resume or with several tasks/collections.""" if r3 else "")
 p = next(json.loads(l) for l in open('/verif/properties.jsonl') if json.loads(l)['id'] == pid)
+LET = "g, h, i, j" if r3 else "d, e, f"
 print(f"""You are helping to evaluate a verification effort for the Go project zilliztech/milvus-cdc (a change-data-capture service for Milvus). You have your own scratch git worktree of the project at {wt} (three Go modules: core/, server/, rocksdb/). Work ONLY inside {wt} and {out}; never touch /repo or /verif and do not read anything under /verif.
 
 Here is a semantic property the project is supposed to satisfy:
@@ -18,7 +20,7 @@ Here is a semantic property the project is supposed to satisfy:
 
 Your task: produce {n} DIFFERENT, independent, realistic code changes (the kind of mistake a developer could plausibly make in a refactoring, an optimisation, a bug-fix attempt or a feature addition) each of which BREAKS this property, while the project still compiles and all existing tests that pass today still pass. Prefer changes that need something specific to manifest — a particular interleaving, a crash or fault at a particular point, a multi-step sequence of operations, an unusual input, or two cooperating sites that each look fine alone — not ones ordinary use would expose at once.{KINDS} Changes should be small (a few lines to a few dozen), should be to non-test source files only, and must not be mere deletions of whole functions or obviously sabotaging code (no 'if false', no panics added on purpose, no comments announcing the bug).
 
-For EACH change i (1..{n}) deliver a directory {out}/{pid}-<letter>/ (letters d, e, f) containing:
+For EACH change i (1..{n}) deliver a directory {out}/{pid}-<letter>/ (letters {LET}) containing:
   - patch.diff : output of `git -C {wt} diff` for that change alone (relative to the worktree's HEAD; it must apply with `git apply` on a clean checkout of HEAD)
   - a demonstration: a Go test file (name it zz_seed_demo_test.go, say which package directory it must be copied into) or a small program, that FAILS with the change applied and PASSES without it. The demonstration must not need network, etcd, MySQL, Kafka or a Milvus server; use fakes / mocks (the repo has mockery mocks under core/mocks and server/mocks) or call the functions directly. Test function names must start with TestSeedDemo.
   - meta.json : {{"property": "{pid}", "title": short title of the change, "what_breaks": which clause of the property fails and how, "needs_to_manifest": what input/schedule/sequence/fault is needed, "demo": {{"copy_to": "<dir relative to repo root>", "run": "<exact go test command, run from which module dir>"}}, "files_changed": [...]}}
